@@ -5,7 +5,6 @@
 //! The results are checked number by number by the driver's `opsraw` command (monitor `Mon.ops`), which needs no
 //! model instance for the type.
 
-use crate::types::Nums;
 use std::marker::PhantomData;
 use std::ops::{Add, AddAssign, Mul, MulAssign, Neg, Sub, SubAssign};
 
@@ -19,19 +18,20 @@ impl<T> Probe<T> {
 macro_rules! probe_pair {
     ($yes:ident, $no:ident, $m:ident, ($($arg:ident : $aty:ty),*), [$($bound:tt)*], |$p:ident| $body:expr) => {
         pub trait $yes<T> {
-            fn $m(&self, p: T $(, $arg: $aty)*) -> Option<Vec<f64>>;
+            fn $m(&self, p: T $(, $arg: $aty)*, show: &dyn Fn(&T) -> String) -> Option<String>;
         }
-        impl<T: Nums + $($bound)*> $yes<T> for Probe<T> {
+        impl<T: $($bound)*> $yes<T> for Probe<T> {
             #[allow(unused_mut)]
-            fn $m(&self, mut $p: T $(, $arg: $aty)*) -> Option<Vec<f64>> {
-                Some($body)
+            fn $m(&self, mut $p: T $(, $arg: $aty)*, show: &dyn Fn(&T) -> String) -> Option<String> {
+                let r: T = $body;
+                Some(show(&r))
             }
         }
         pub trait $no<T> {
-            fn $m(&self, p: T $(, $arg: $aty)*) -> Option<Vec<f64>>;
+            fn $m(&self, p: T $(, $arg: $aty)*, show: &dyn Fn(&T) -> String) -> Option<String>;
         }
         impl<T> $no<T> for &Probe<T> {
-            fn $m(&self, _p: T $(, $arg: $aty)*) -> Option<Vec<f64>> {
+            fn $m(&self, _p: T $(, $arg: $aty)*, _show: &dyn Fn(&T) -> String) -> Option<String> {
                 $(let _ = $arg;)*
                 None
             }
@@ -39,21 +39,23 @@ macro_rules! probe_pair {
     };
 }
 
-probe_pair!(MulYes, MulNo, op_mul, (s: f64), [Mul<f64, Output = T>], |p| (p * s).to_nums());
+probe_pair!(MulYes, MulNo, op_mul, (s: f64), [Mul<f64, Output = T>], |p| p * s);
 probe_pair!(MulAssignYes, MulAssignNo, op_mulassign, (s: f64), [MulAssign<f64>], |p| {
     p *= s;
-    p.to_nums()
+    p
 });
-probe_pair!(NegYes, NegNo, op_neg, (), [Neg<Output = T>], |p| (-p).to_nums());
-probe_pair!(AddYes, AddNo, op_add, (q: T), [Add<T, Output = T>], |p| (p + q).to_nums());
-probe_pair!(SubYes, SubNo, op_sub, (q: T), [Sub<T, Output = T>], |p| (p - q).to_nums());
+probe_pair!(NegYes, NegNo, op_neg, (), [Neg<Output = T>], |p| -p);
+probe_pair!(AddYes, AddNo, op_add, (q: T), [Add<T, Output = T>], |p| p + q);
+probe_pair!(SubYes, SubNo, op_sub, (q: T), [Sub<T, Output = T>], |p| p - q);
 probe_pair!(AddAssignYes, AddAssignNo, op_addassign, (q: T), [AddAssign<T>], |p| {
     p += q;
-    p.to_nums()
+    p
 });
 probe_pair!(SubAssignYes, SubAssignNo, op_subassign, (q: T), [SubAssign<T>], |p| {
     p -= q;
-    p.to_nums()
+    p
 });
 
 pub const PROBE_OPS: &[&str] = &["mul", "mulassign", "neg", "add", "sub", "addassign", "subassign"];
+/// operators probed on the containers `Segment<T>` and `Piecewise<T>` (C15: "every piece type for which the operator exists")
+pub const PROBE_PW_OPS: &[&str] = &["mul", "mulassign", "neg"];
